@@ -78,7 +78,19 @@ def adapt_input(P, x, how):
     return P.ls.thub(x if isinstance(x, P.ls.Stream) else P.ls.Stream(x), 1)
   if how == "gen":
     return (v for v in x)
+  if how == "iterable":     # iterable, not an iterator: one-pass underneath
+    return _IterableOnly(x)
   return x
+
+
+class _IterableOnly(object):
+  __slots__ = ("inner",)
+
+  def __init__(self, inner):
+    self.inner = inner
+
+  def __iter__(self):
+    return iter(self.inner)
 
 
 class _Starved(BaseException):
@@ -195,7 +207,8 @@ class C02(Property):
                 # how each input is handed over: as it is, wrapped in a
                 # Stream, through a single-use thub, or through a generator
                 "adapt": [W.weighted("adapt", [(5, "raw"), (2, "stream"),
-                                               (1, "hub1"), (1, "gen")])
+                                               (1, "hub1"), (1, "gen"),
+                                               (1, "iterable")])
                           for _ in ins]}
         exact = exact and st["exact"]
         cur_type = st["prod"]
